@@ -116,6 +116,9 @@ def umod (a b : Nat) : Option Nat := if b = 0 then none else some (a % b)
 /-- `for k := range m { delete(m, k) }`: every key is deleted; the nil map stays nil -/
 def Map.clear {κ ν : Type} (m : Map κ ν) : Map κ ν := m.map fun _ => []
 
+/-- conversion to a signed integer type of `bits` bits (`int32(x)`): two's complement wrap-around -/
+def wrapS (bits : Nat) (x : Int) : Int := (x + 2 ^ (bits - 1)) % 2 ^ bits - 2 ^ (bits - 1)
+
 /-! ### facts about `loop` for the equivalence proofs (no definitions below this line are used by generated text) -/
 
 /-- a body that never returns nor breaks: the loop is the fold of its state function -/
